@@ -49,7 +49,7 @@ class Loader(yaml.SafeLoader):
         self.__patch_floats()
         self.__patch_bools()
         self.__recognizer = Recognizer(
-                self._registered_classes, self._additional_classes)
+                self._registered_classes, self._additional_classes, self)
 
     def fetch_more_tokens(self) -> Any:
         """Hook used by PyYAML's scanner to read the next token(s).
@@ -264,6 +264,14 @@ class Loader(yaml.SafeLoader):
         # remove syntactic sugar
         logger.debug('Savorizing node {}'.format(node))
         if recognized_type in self._registered_classes.values():
+            if (
+                    isinstance(node, yaml.ScalarNode)
+                    and node.tag == self.__type_to_tag(recognized_type)):
+                # an explicit tag naming the class, show the savorize
+                # function what type of scalar this is, as without it
+                plain = node.style is None
+                node.tag = self.resolve(
+                        yaml.ScalarNode, node.value, (plain, not plain))
             if (issubclass(recognized_type, enum.Enum)
                     and node.tag == 'tag:yaml.org,2002:bool'):
                 # don't read this as a bool but as a string
